@@ -369,6 +369,10 @@ fn o_many(c: &crate::props::c02::ManyKeys, st: &mut Stats) -> Result<(), String>
     Ok(())
 }
 
+fn o_session(s: &crate::history::Session<CkCase>, st: &mut Stats) -> Result<(), String> {
+    crate::history::judge_session(s, o_case, st)
+}
+
 pub fn sections() -> Vec<Box<dyn Section>> {
     vec![
         Box::new(Random {
@@ -378,6 +382,14 @@ pub fn sections() -> Vec<Box<dyn Section>> {
             strategy: Box::new(|_: Tier| crate::props::c02::gmany()),
             oracle: o_many,
             required: vec!["thousands of algorithms", "tens of thousands of algorithms", "more than 65535 algorithms"],
+        }),
+        Box::new(Random {
+            name: "sessions-of-entry-sets".into(),
+            quick: 40,
+            thorough: 1200,
+            strategy: Box::new(|_| crate::history::gsession(gcase())),
+            oracle: o_session,
+            required: vec!["judged inside a session", "session of 1000 or more cases"],
         }),
         Box::new(Random {
             name: "entry-sets-after-a-prelude".into(),
